@@ -36,45 +36,62 @@ def _is_generator(fn: loader.Func) -> bool:
 def rule_snapshot(ctx: Ctx) -> None:
     ci = A.call_index(ctx)
     cls = f"{DISP}.BacktestingDispatcher"
-    n_loops = 0
+    n_sites = 0
     for name, fn in sorted(ctx.repo.methods_of(cls).items()):
-        for n in C.walk_shallow(fn.node):
-            if not isinstance(n, (ast.For, ast.AsyncFor)):
-                continue
-            gens: List[str] = []
-            lazy_call: Optional[ast.Call] = None
-            for c in A.calls(n.iter):
-                for callee in ci.callees(fn.module, c):
-                    f2 = ctx.repo.funcs.get(callee)
-                    if f2 is not None and _is_generator(f2) and callee.startswith(f"{DISP}.EventMultiplexer."):
-                        gens.append(callee)
-                        lazy_call = c
+        for c in A.func_calls(fn):
+            gens = [q for q in ci.callees(fn.module, c)
+                    if q.startswith(f"{DISP}.EventMultiplexer.") and q in ctx.repo.funcs and _is_generator(ctx.repo.funcs[q])]
             if not gens:
                 continue
-            n_loops += 1
+            n_sites += 1
             ctx.analysed_funcs.update(gens)
-            # materialised?  the generator call is an argument of list()/tuple()/sorted()
+            gname = gens[0].rsplit(".", 1)[-1]
+            inst = f"pass over {gname}() in {name}"
+            # how is the generator consumed?
+            loop: Optional[ast.AST] = None
             mat = False
-            for a in A.ancestors(lazy_call):
-                if a is n:
-                    break
-                if isinstance(a, ast.Call) and A.call_name(a) in ("list", "tuple", "sorted"):
+            cur: ast.AST = c
+            for a in A.ancestors(c):
+                if isinstance(a, ast.Call) and cur in a.args and A.call_name(a) in ("list", "tuple", "sorted"):
                     mat = True
-            susp = [x for s in n.body for x in C.walk_shallow(s) if isinstance(x, (ast.Await, ast.AsyncFor, ast.AsyncWith))]
-            inst = f"pass over {gens[0].rsplit('.', 1)[-1]}() in {name}"
+                    break
+                if isinstance(a, (ast.For, ast.AsyncFor)) and A.is_within(c, a.iter):
+                    loop = a
+                    break
+                if isinstance(a, ast.Assign) and len(a.targets) == 1 and isinstance(a.targets[0], ast.Name) and a.value is cur:
+                    nm = a.targets[0].id
+                    loops = [n for n in C.walk_shallow(fn.node) if isinstance(n, (ast.For, ast.AsyncFor))
+                             and isinstance(n.iter, ast.Name) and n.iter.id == nm]
+                    mats = [n for n in C.walk_shallow(fn.node) if isinstance(n, ast.Call)
+                            and A.call_name(n) in ("list", "tuple", "sorted") and n.args
+                            and isinstance(n.args[0], ast.Name) and n.args[0].id == nm]
+                    if mats and not loops:
+                        mat = True
+                    elif len(loops) == 1 and not mats:
+                        loop = loops[0]
+                    else:
+                        ctx.require(False, f"C03.1: cannot tell how the generator bound to {nm} in {name} is consumed")
+                    break
+                if isinstance(a, ast.stmt):
+                    ctx.require(False, f"C03.1: unrecognised consumption of {gname}() in {name} (line {c.lineno})")
+                cur = a
             if mat:
-                ctx.ok("C03.1", inst, fn, n.iter, "events of the pass are materialised before the first suspension point")
-            elif not susp:
-                ctx.ok("C03.1", inst, fn, n.iter, "loop body has no suspension point")
+                ctx.ok("C03.1", inst, fn, c, "events of the pass are materialised before the first suspension point")
+                continue
+            ctx.require(loop is not None, f"C03.1: {gname}() in {name} is neither iterated nor materialised")
+            susp = [x for s_ in loop.body for x in C.walk_shallow(s_)
+                    if isinstance(x, (ast.Await, ast.AsyncFor, ast.AsyncWith))]
+            if not susp:
+                ctx.ok("C03.1", inst, fn, c, "loop body has no suspension point")
             else:
-                ctx.bad("C03.1", inst, fn, n.iter,
-                        f"the loop draws events lazily from {gens[0].rsplit('.', 1)[-1]}() (which re-polls every source on "
+                ctx.bad("C03.1", inst, fn, c,
+                        f"the loop draws events lazily from {gname}() (which re-polls every source on "
                         f"each step) and suspends at line {susp[0].lineno} ({ast.unparse(susp[0])[:60]}): when the pool "
                         "is full a handler already running can publish a derived bar event that is popped in this same "
                         "pass, before primary bars of the same timestamp are matched -> an order is filled by the bar of "
                         "its own timestamp and results depend on max_concurrent",
                         detail={"suspension": ast.unparse(susp[0]), "generator": gens[0]})
-    ctx.floor("C03.1", "lazy event-draw loops in BacktestingDispatcher", n_loops, 1)
+    ctx.floor("C03.1", "lazy event-draw sites in BacktestingDispatcher", n_sites, 1)
     # pop_while re-polls on every step: it is a generator around pop()
     pw = ctx.func(f"{DISP}.EventMultiplexer.pop_while")
     ctx.check(_is_generator(pw) and any((A.call_name(c) or "") == "self.pop" for c in A.func_calls(pw)), "C03.1",
